@@ -7,7 +7,12 @@ DS(k) == CASE k = 1 -> <<0, 90, 180, 270>> [] k = 2 -> <<30, 150, 270>> [] k = 3
            [] k = 5 -> <<90, 180, 270, 360>>      \* north labelled 360: labels are compared as they are, not modulo 360
 \* PTM4: celerity classes per frequency (decreasing with f) and wind-component classes per direction, incl. equality
 CSEQ == <<8, 5, 3, 2>>
-USET(n) == IF n = 3 THEN {<<8, 2, 0>>, <<5, 5, 1>>, <<3, 9, -4>>, <<0, 0, 0>>} ELSE {<<8, 2, 0, -3>>, <<5, 5, 1, 3>>, <<2, 9, -4, 8>>, <<1, 1, 1, 1>>}
+\* MISSING stands for a wind component that is not a number (missing wind speed, wind direction or depth for that bin): the rule
+\* "celerity <= component" is false for it, so the bin is swell - as for any component below every celerity class, which is how the
+\* integer -999 behaves in Ptm4Sea / Ptm4Swell.  The harness realises MISSING as NaN (in wspd, in wdir, or - whole record - in dpt).
+MISSING == -999
+USET(n) == IF n = 3 THEN {<<8, 2, 0>>, <<5, 5, 1>>, <<3, 9, -4>>, <<0, 0, 0>>, <<MISSING, 9, MISSING>>, <<MISSING, MISSING, MISSING>>}
+           ELSE {<<8, 2, 0, -3>>, <<5, 5, 1, 3>>, <<2, 9, -4, 8>>, <<1, 1, 1, 1>>, <<8, MISSING, 5, MISSING>>, <<MISSING, MISSING, MISSING, MISSING>>}
 \* boxes: [fmin, fmax, dmin, dmax], -1 omitted
 BOXSETS == { << <<2, 3, 0, 100>>, <<5, 8, -1, -1>> >>,            \* disjoint, second with omitted direction limits
              << <<-1, 3, -1, 100>>, <<4, -1, 120, -1>> >>,          \* omitted lower / upper limits
@@ -40,6 +45,8 @@ Es == SortCols(D, E)
 SeqSumInt(q) == LET f[k \in 0..Len(q)] == IF k = 0 THEN 0 ELSE f[k-1] + q[k] IN f[Len(q)]
 Ptm4OK == MODE = "ptm4" =>
    /\ \A i \in 1..Len(FG) : \A k \in 1..Len(D) : (res[1][i][k] = 0 \/ res[2][i][k] = 0) /\ res[1][i][k] + res[2][i][k] = Es[i][k]
+MissingIsSwell == MODE = "ptm4" => \A i \in 1..Len(FG) : \A k \in 1..Len(D) :
+                     LET u == [j \in 1..Len(D) |-> sel[SortedIdx(D)[j]]] IN u[k] = MISSING => res[1][i][k] = 0
 BboxOK == (MODE = "bbox" /\ res # <<>>) =>
    /\ \A i \in 1..Len(FG) : \A k \in 1..Len(D) :
         /\ \A a \in 1..Len(sel) : res[a][i][k] = (IF InBox(FG, D, sel[a], i, k) THEN Es[i][k] ELSE 0)
